@@ -860,6 +860,9 @@ class Interp:
                             st.z.set_range(ft, src[1], src[1])
                         else:
                             st.z.eq(ft, src[0], 0)
+                    fp = fo.get("c") or fo.get("m")
+                    if fp is not None and not fp.get("p"):
+                        self.copy_subterms(st, self.canon(st, fp), ft)
             elif rv.get("k") == "array":
                 st.z.set_range(_len_term(t), len(rv["fields"]), len(rv["fields"]))
             return
@@ -1361,7 +1364,8 @@ class Interp:
                     work.append(b)
         cands = sorted(seen)
         for b in cands:
-            if b.startswith("pos(") or b.startswith("len("):
+            # lengths of anonymous sub-slices (`len(sub54)`) come and go with liveness: not a stable name
+            if (b.startswith("pos(") or b.startswith("len(")) and not b.startswith("len(sub"):
                 return b
         for b in cands:
             m = _LOCAL.fullmatch(b)
@@ -1533,6 +1537,11 @@ def summarise(it):
     return out
 
 
+def _norm_site(site):
+    """Reviewed-site keys survive reformatting: whitespace and parentheses are not significant."""
+    return re.sub(r"[\s()]", "", site)
+
+
 def check_panic_freedom(prog, rule, roots, prop, scope_crates=("rustybgp_packet",), profile="debug", extra_skip=None, casts_in=None, cast_rule=None, cast_filter=None, field_bounds=None):
     """Run the interpreter over every local function reachable from `roots` and turn open obligations into
     rule violations unless listed (with still-valid reasons) in specs/reviewed_sites.json."""
@@ -1543,7 +1552,7 @@ def check_panic_freedom(prog, rule, roots, prop, scope_crates=("rustybgp_packet"
     reviewed = {}
     if os.path.exists(rv_path):
         for e in json.load(open(rv_path)):
-            reviewed[(e["fn"], e["site"])] = e
+            reviewed[(e["fn"], _norm_site(e["site"]))] = e
     reach = prog.reachable(roots)
     fns = sorted(k for k in reach if k.split("::")[0] in scope_crates)
     n_open = 0
@@ -1606,13 +1615,13 @@ def check_panic_freedom(prog, rule, roots, prop, scope_crates=("rustybgp_packet"
             if ob.status == "discharged":
                 tgt_rule.ok("%s %s" % (short(prog.name(k)), site), ob.by)
                 continue
-            if is_inv and (prog.name(k), site) not in reviewed:
+            if is_inv and (prog.name(k), _norm_site(site)) not in reviewed:
                 if ob.kind == "field-bound":
                     tgt_rule.fail(prog.name(k), site, "a value built from API input can violate %s (the wire decoder enforces it): %s" % (ob.desc, ob.by), where)
                 else:
                     tgt_rule.fail(prog.name(k), site, "narrowing cast %s of %s can truncate: %s" % (ob.kind[5:], ob.desc, ob.by), where)
                 continue
-            rk = (prog.name(k), site)
+            rk = (prog.name(k), _norm_site(site))
             if rk in reviewed:
                 seen_keys.add(rk)
                 # the guards the review relied on must still dominate the site
